@@ -376,7 +376,7 @@ pub fn run(cfg: &Cfg, rep: &mut Report) {
         rep.pin("F15.zero_width_triangle_nan", if r2.n_violations() == 0 { Ok(()) } else { Err(r2.violations.values().next().map(|v| v.firsts[0].detail.clone()).unwrap_or_default()) });
     }
 
-    let n = cfg.n(600_000, 60_000_000);
+    let n = cfg.n(1_500_000, 200_000_000);
     rep.run_stream(cfg, 0, "scenes", n, |rng, i, rep| {
         let c = gen(rng);
         if cfg.only.is_some() {
